@@ -15,6 +15,7 @@ let () =
    | "neighmodel" -> Neighmodel.run st b
    | "pipemodel" -> Pipemodel.run st b
    | "f32" -> F32ops.run st b
+   | "time" -> Timeops.run st b
    | _ -> prerr_endline ("unknown command " ^ cmd); exit 2)
    (* a reference of the raw instance does not resolve: the loader's HashMap index / find(..).unwrap() panic *)
    with Resolve_failed -> Buffer.add_string b "load PANIC\n");
